@@ -131,33 +131,46 @@ func implies(pc, goal form) bool {
 	return ok && sat
 }
 
-// reachedExactlyWhen: the ordered path condition pc is  P1 … Pk, T1 … Tm  where the Ti — from the first
-// conjunct that mentions a focus atom on — speak about focus atoms only and their conjunction is equivalent to
-// target, and the prefix Pi consists of facts established before: tests of plain variables (`ok`) and of
-// `x == nil`, nothing else.  (A further test inside or before the tested condition — "only if it is not a
-// time-out" — is not a prefix fact and makes the comparison fail.)
-func reachedExactlyWhen(pc []form, target form, focus []string) bool {
+// reachedExactlyWhen: the ordered path condition pc is  P1 … Pk, T1 … Tm  where the tail Ti starts at the first
+// conjunct that mentions one of the `fresh` variables (the results of the call whose failure is being handled — they
+// did not exist before, so nothing established earlier can depend on them) or a focus atom; the tail speaks about
+// focus atoms only and its conjunction is equivalent to target.  What was established before (an unreachable
+// invariant check that returns, an `ok` test) does not matter for the question; a further test of the fresh
+// variables inside or before the tested condition — "only if it is not a time-out" — is part of the tail, is not a
+// focus atom, and makes the comparison fail.
+func reachedExactlyWhen(pc []form, target form, focus []string, fresh []string) bool {
 	isFocus := map[string]bool{}
 	for _, a := range focus {
 		isFocus[a] = true
 	}
+	mentions := func(a string) bool {
+		if isFocus[a] {
+			return true
+		}
+		for _, v := range fresh {
+			for i := 0; v != "" && i+len(v) <= len(a); i++ {
+				if a[i:i+len(v)] != v {
+					continue
+				}
+				before := i == 0 || !identChar(a[i-1])
+				after := i+len(v) == len(a) || !identChar(a[i+len(v)])
+				if before && after {
+					return true
+				}
+			}
+		}
+		return false
+	}
 	first := -1
 	for i, c := range pc {
 		for _, a := range sortedAtoms(c) {
-			if isFocus[a] && first < 0 {
+			if mentions(a) && first < 0 {
 				first = i
 			}
 		}
 	}
 	if first < 0 {
 		return false
-	}
-	for _, c := range pc[:first] {
-		for _, a := range sortedAtoms(c) {
-			if !plainFact(a) {
-				return false
-			}
-		}
 	}
 	tail := conj(pc[first:])
 	for _, a := range sortedAtoms(tail) {
@@ -178,6 +191,10 @@ func reachedExactlyWhen(pc []form, target form, focus []string) bool {
 	return same && sat
 }
 
+func identChar(c byte) bool {
+	return c == '_' || c == '#' || c >= '0' && c <= '9' || c >= 'a' && c <= 'z' || c >= 'A' && c <= 'Z'
+}
+
 // plainFact: `x`, `x#3`, `x==nil` — a variable or a nil test, no call, no arithmetic
 func plainFact(a string) bool {
 	a = strings.TrimSuffix(a, "==nil")
@@ -194,8 +211,8 @@ func plainFact(a string) bool {
 // env binds the parameters (and the receiver) of a helper that is being walked to the caller's arguments.
 type env struct {
 	bind   map[string]bound
-	ver    map[string]int      // version of a local variable: bumped at every assignment
-	alias  map[string]ast.Expr // x := <index expression> (a map entry read into a variable)
+	ver    map[string]int    // version of a local variable: bumped at every assignment
+	alias  map[string]string // x := <pure expression> (a map entry, len(y), a field, another variable): its key when x was defined
 	locals map[string]*ast.FuncLit
 }
 type bound struct {
@@ -204,7 +221,7 @@ type bound struct {
 }
 
 func newEnv() *env {
-	return &env{bind: map[string]bound{}, ver: map[string]int{}, alias: map[string]ast.Expr{}, locals: map[string]*ast.FuncLit{}}
+	return &env{bind: map[string]bound{}, ver: map[string]int{}, alias: map[string]string{}, locals: map[string]*ast.FuncLit{}}
 }
 
 type sem struct {
@@ -303,7 +320,7 @@ func (s *sem) key(e ast.Expr, en *env) string {
 				return s.key(b.e, b.env)
 			}
 			if a, ok := en.alias[x.Name]; ok {
-				return s.key(a, en)
+				return a
 			}
 			if v := en.ver[x.Name]; v > 0 {
 				return fmt.Sprintf("%s#%d", x.Name, v)
@@ -316,6 +333,14 @@ func (s *sem) key(e ast.Expr, en *env) string {
 		return s.key(x.X, en) + "." + x.Sel.Name
 	case *ast.IndexExpr:
 		return s.key(x.X, en) + "[" + s.key(x.Index, en) + "]"
+	case *ast.SliceExpr:
+		k := func(e ast.Expr) string {
+			if e == nil {
+				return ""
+			}
+			return s.key(e, en)
+		}
+		return s.key(x.X, en) + "[" + k(x.Low) + ":" + k(x.High) + "]"
 	case *ast.StarExpr:
 		return "*" + s.key(x.X, en)
 	case *ast.UnaryExpr:
@@ -573,6 +598,9 @@ type visit struct {
 	pc   []form          // the conditions under which the statement is reached, in the order in which they were established
 	env  *env
 	comm []ast.Stmt // the communications of the enclosing select clauses, innermost last
+	// for a call on the right-hand side of an assignment (`n, err := x.f(a)`, also in the init of an if):
+	lhs  []string // the keys of the assigned variables, after the assignment
+	args []string // the keys of the arguments, before the assignment
 }
 
 func terminates(l []ast.Stmt) bool {
@@ -694,15 +722,45 @@ func (s *sem) walk(l []ast.Stmt, pc []form, en *env, comm []ast.Stmt, depth int,
 					}
 				}
 			}
+			// x := <pure expression>: x stands for that expression as it is now
+			aliasKey := ""
+			if len(x.Rhs) == 1 {
+				switch r := x.Rhs[0].(type) {
+				case *ast.IndexExpr, *ast.SelectorExpr:
+					aliasKey = s.key(r, en)
+				case *ast.CallExpr:
+					if id, ok := r.Fun.(*ast.Ident); ok && (id.Name == "len" || id.Name == "cap") && len(r.Args) == 1 {
+						aliasKey = s.key(r, en)
+					}
+				}
+			}
+			var rhsCall *ast.CallExpr
+			var argKeys []string
+			if len(x.Rhs) == 1 {
+				if c, ok := x.Rhs[0].(*ast.CallExpr); ok {
+					rhsCall = c
+					for _, a := range c.Args {
+						argKeys = append(argKeys, s.key(a, en))
+					}
+					// a helper on the right-hand side is walked into like a call statement: what it does happens here
+					if fd, recv := s.helper(c); fd != nil && depth < 3 {
+						s.walk(fd.Body.List, pc, s.bindCall(fd, recv, c, en), comm, depth+1, f)
+					}
+				}
+			}
 			for _, lh := range x.Lhs {
 				s.assigned(lh, en)
 			}
-			if len(x.Rhs) == 1 && len(x.Lhs) >= 1 {
-				if ix, ok := x.Rhs[0].(*ast.IndexExpr); ok {
-					if id, ok := x.Lhs[0].(*ast.Ident); ok && id.Name != "_" {
-						en.ver[id.Name] = 0
-						en.alias[id.Name] = ix
-					}
+			if rhsCall != nil {
+				var lhsKeys []string
+				for _, lh := range x.Lhs {
+					lhsKeys = append(lhsKeys, s.key(lh, en))
+				}
+				f(visit{call: rhsCall, pc: pc, env: en, comm: comm, lhs: lhsKeys, args: argKeys})
+			}
+			if len(x.Rhs) == 1 && len(x.Lhs) >= 1 && x.Tok == token.DEFINE && aliasKey != "" {
+				if id, ok := x.Lhs[0].(*ast.Ident); ok && id.Name != "_" {
+					en.alias[id.Name] = aliasKey
 				}
 			}
 		case *ast.IncDecStmt:
@@ -710,6 +768,13 @@ func (s *sem) walk(l []ast.Stmt, pc []form, en *env, comm []ast.Stmt, depth int,
 		case *ast.DeclStmt:
 			// var x T: a fresh variable
 		case *ast.ReturnStmt:
+			for _, r := range x.Results {
+				if c, ok := r.(*ast.CallExpr); ok && depth < 3 {
+					if fd, recv := s.helper(c); fd != nil {
+						s.walk(fd.Body.List, pc, s.bindCall(fd, recv, c, en), comm, depth+1, f)
+					}
+				}
+			}
 			f(visit{ret: x, pc: pc, env: en, comm: comm})
 		case *ast.DeferStmt:
 			f(visit{call: x.Call, pc: pc, env: en, comm: comm})
